@@ -186,7 +186,34 @@ func conservation(i *Inst, w *world.World, which string) []core.Violation {
 		bad("sum_vs_total", "sum of unspent outputs %s + pending fees %s != GetTotal %s", sumU, fees, total)
 	}
 	// coinbase outputs of the applied chain
-	ptr := i.NameOf(st.GetLatestBlockid())
+	if i.U == nil { // bare world (ConservationOf): the chain as the ledger links it
+		cb := new(big.Int)
+		ok := true
+		for id := st.GetLatestBlockid(); len(id) > 0; {
+			blk, err := w.Ledger.QueryBlock(id)
+			if err != nil {
+				ok = false
+				break
+			}
+			for _, t := range blk.Transactions {
+				if t.Coinbase {
+					for _, o := range t.TxOutputs {
+						cb.Add(cb, new(big.Int).SetBytes(o.Amount))
+					}
+				} else if d := balance(t); d != "" {
+					bad("unbalanced_chain_tx", "tx %s in applied block %s: %s", i.Names.Of(t.Txid), i.Names.Of(blk.Blockid), d)
+				}
+			}
+			id = blk.PreHash
+		}
+		if ok && cb.Cmp(total) != 0 {
+			bad("total_vs_coinbase", "GetTotal %s != coinbase outputs %s of the applied chain", total, cb)
+		}
+	}
+	ptr := "?"
+	if i.U != nil {
+		ptr = i.NameOf(st.GetLatestBlockid())
+	}
 	cb := new(big.Int)
 	if !strings.HasPrefix(ptr, "?") {
 		for _, bn := range i.Chain(ptr) {
@@ -239,4 +266,20 @@ func balance(t *pb.Transaction) string {
 		return fmt.Sprintf("inputs %s != outputs %s", in, out)
 	}
 	return ""
+}
+
+// ConservationOf runs the C02 equalities on a bare world (no instance).
+func ConservationOf(w *world.World, names *world.Names, which string) []core.Violation {
+	return conservation(&Inst{Names: names, Failed: map[string]bool{}}, w, which)
+}
+
+// (conservation reads the applied chain from the ledger when the instance has no universe)
+
+// ObserveState is the universe-independent part of Observe: totals, balances,
+// harness keys, range scan and the raw U / ZU / M tables.
+func ObserveState(w *world.World, names *world.Names) map[string]string {
+	u := &world.Universe{}
+	o := Observe(&Inst{Names: names, U: u, Failed: map[string]bool{}}, w)
+	delete(o, "ptr")
+	return o
 }
